@@ -18,14 +18,15 @@ import (
 // leaves out. It is a report, never a verdict.
 
 type codeCov struct {
-	AnchorFiles      []string       `json:"anchor_files"`
-	BlocksTotal      int            `json:"blocks_in_anchor_files"`
-	BlocksHit        int            `json:"blocks_entered"`
-	PerFile          map[string]any `json:"per_file"`
-	NeverEntered     []string       `json:"functions_never_entered"`
-	UncoveredBlocks  []string       `json:"uncovered_blocks_in_entered_functions"`
-	UncoveredOmitted int            `json:"uncovered_blocks_not_listed"`
-	Note             string         `json:"note"`
+	AnchorFiles       []string       `json:"anchor_files"`
+	BlocksTotal       int            `json:"blocks_in_anchor_files"`
+	BlocksHit         int            `json:"blocks_entered"`
+	PerFile           map[string]any `json:"per_file"`
+	NeverEntered      []string       `json:"functions_never_entered"`
+	UncoveredBlocks   []string       `json:"uncovered_non_error_blocks_in_entered_functions"`
+	UncoveredOmitted  int            `json:"uncovered_blocks_not_listed"`
+	UncoveredErrPaths int            `json:"uncovered_error_return_blocks"`
+	Note              string         `json:"note"`
 }
 
 func (d *driver) anchorFiles() []string {
@@ -65,6 +66,7 @@ func (d *driver) codeCoverage(progs map[string]*interp.Program, printAll bool) *
 		file string
 		line int
 		hit  bool
+		errp bool
 	}
 	merged := map[key]*blk{}
 	for _, p := range progs {
@@ -76,7 +78,7 @@ func (d *driver) codeCoverage(progs map[string]*interp.Program, printAll bool) *
 			if m, ok := merged[k]; ok {
 				m.hit = m.hit || b.Hit
 			} else {
-				merged[k] = &blk{b.File, b.Line, b.Hit}
+				merged[k] = &blk{b.File, b.Line, b.Hit, b.ErrPath}
 			}
 		}
 	}
@@ -114,12 +116,16 @@ func (d *driver) codeCoverage(progs map[string]*interp.Program, printAll bool) *
 	var unc []string
 	for k, b := range merged {
 		if !b.hit && fnHit[k.fn] > 0 {
+			if b.errp {
+				cc.UncoveredErrPaths++
+				continue
+			}
 			unc = append(unc, fmt.Sprintf("%s:%d %s #%d", b.file, b.line, shortName(k.fn), k.block))
 		}
 	}
 	sort.Strings(unc)
 	if printAll {
-		fmt.Printf("code coverage of anchor files: %d of %d blocks entered\n", cc.BlocksHit, cc.BlocksTotal)
+		fmt.Printf("code coverage of anchor files: %d of %d blocks entered; %d uncovered error-return blocks not listed\n", cc.BlocksHit, cc.BlocksTotal, cc.UncoveredErrPaths)
 		for _, f := range cc.NeverEntered {
 			fmt.Println("  never entered:", f)
 		}
